@@ -53,6 +53,8 @@ G0 == [ptr |-> 0, he |-> 0]
 L0 == [g |-> 0, h |-> 0, c |-> 0, val |-> 0, era |-> 0, prev |-> 0, op |-> "none", fresh |-> 0, u |-> 0, k |-> 0, prot |-> {}, exp |-> 0,
        after |-> "none", nhe |-> 0]
 
+\* operations per thread (a definition the configurations may override: asymmetric programs keep weak-memory runs small)
+OpsOf(t) == MaxOps
 Init == /\ MemInit
         /\ pc = [t \in Threads |-> "idle"]
         /\ loc = [t \in Threads |-> L0]
@@ -65,7 +67,7 @@ Init == /\ MemInit
         /\ nstate = [n \in Nodes |-> IF n <= NCells THEN "live" ELSE "free"]
         /\ cera = [n \in Nodes |-> 1]
         /\ rera = [n \in Nodes |-> 0]
-        /\ budget = [t \in Threads |-> MaxOps]
+        /\ budget = [t \in Threads |-> OpsOf(t)]
         /\ flushed = [t \in Threads |-> FALSE]
         /\ bad = "ok"
         /\ last = [t |-> -1, k |-> "init", lab |-> "init", v |-> 0, ok |-> 1, n |-> 0]
